@@ -64,6 +64,8 @@ CRAFTED = [
     "C1CCCCC1=O>>C1CCCCC1O", "CC=O>>CCO", "CCN.CC(=O)Cl>>CCNC(C)=O", "N#Cc1ccccc1>>NCc1ccccc1",
     "CS(=O)(=O)Cl.OCC>>CCOS(C)(=O)=O", "CC(=O)OC(C)=O.OCC>>CCOC(C)=O", "BrCCBr>>C=C", "CCI>>CC",
     "C[Si](C)(C)Cl.OCC>>CCO[Si](C)(C)C",
+    # validation-set row whose solved result is overwritten by a permanganate template (C01 known finding)
+    "C(CC(C=1C=C2C(N(C)C(=N2)CO)=CC=1OC)=O)C.O>>O=C(O)C=1N(C)C=2C(=CC(=C(OC)C=2)C(CCC)=O)N=1",
 ]
 
 
